@@ -151,18 +151,20 @@ def onDeliver (v : Variant) (s : St) (bs : List Blk) : St :=
   let s1 := ((bs.filter (fun b => isExplicit s b && s.known.contains b.hash)).map (·.hash)).foldl forgetHash s
   (bs.filter (fun b => isExplicit s b && !(s.known.contains b.hash))).foldl (deliverTwo v) s1
 
-/-- the goroutine of `insert` for the popped entry of hash `h`, then the `done` case -/
+/-- the goroutine of `insert` for the popped entry `i`: parent lookup, validateBlock (+ propagation), insertChain (+ announcement) -/
+def goroutine (s : St) (i : Inj) (newHeight : Nat) : St :=
+  if !(s.known.contains i.blk.parent) then s
+  else if !i.blk.vOk then { s with dropped := i.origin :: s.dropped }
+  else if i.blk.iOk then
+    { s with handed := i :: s.handed, bcast := (i.blk.hash, false) :: (i.blk.hash, true) :: s.bcast,
+             known := i.blk.hash :: s.known, height := newHeight }
+  else { s with handed := i :: s.handed, bcast := (i.blk.hash, true) :: s.bcast }
+
+/-- the goroutine of `insert` for the popped entry of hash `h` ends, then the `done` case (deferred send: whatever happened) -/
 def onFinish (v : Variant) (s : St) (h newHeight : Nat) : St :=
   match s.queued.find? (fun i => i.blk.hash == h && i.st.isSome) with
   | none => s
-  | some i =>
-    let s1 : St :=
-      if !(s.known.contains i.blk.parent) then s
-      else if !i.blk.vOk then { s with dropped := i.origin :: s.dropped }
-      else
-        let s' := { s with handed := i :: s.handed, bcast := (h, true) :: s.bcast }
-        if i.blk.iOk then { s' with known := h :: s'.known, height := newHeight, bcast := (h, false) :: s'.bcast } else s'
-    forgetBlock v (forgetHash s1 h) h
+  | some i => forgetBlock v (forgetHash (goroutine s i newHeight) h) h
 
 inductive Ev where
   | notify (p h : Nat) (t : Int)
@@ -190,14 +192,15 @@ def handle (v : Variant) (s : St) : Ev → St
 def expire (s : St) : St :=
   ((s.fetching.filter (fun a => decide (s.now - a.time > (FeFetchTimeoutMs : Int)))).map (·.hash)).foldl forgetHash s
 
-def markPopped (s : St) (h height : Nat) : St :=
-  { s with queued := s.queued.map (fun j => if j.blk.hash == h then { j with st := some height } else j) }
+/-- `f.queue.PopItem()` returned entry `i`, `f.insert` starts its goroutine: the entry stays in `f.queued`, marked -/
+def markPopped (s : St) (i : Inj) (height : Nat) : St :=
+  { s with queued := s.queued.map (fun j => if j == i then { j with st := some height } else j) }
 
 /-- head of `loop`, second half: every waiting entry that fits (height ≤ chain height + 1) is popped; too old or known:
 forgotten; otherwise `insert` -/
 def importOne (v : Variant) (height : Nat) (s : St) (i : Inj) : St :=
   if decide (i.blk.height + FeMaxUncleDist < height) || s.known.contains i.blk.hash then forgetBlock v s i.blk.hash
-  else markPopped s i.blk.hash height
+  else markPopped s i height
 
 def importPass (v : Variant) (s : St) : St :=
   (s.queued.filter (fun i => i.st.isNone && decide (i.blk.height ≤ s.height + 1))).foldl (importOne v s.height) s
